@@ -26,7 +26,18 @@ const (
 	_endFlag           = byte('Z')
 	_nilTag            = byte('N')
 	_interfaceTypeName = "interface {}"
+
+	// _maxPreAlloc is the most elements allocated on the word of a declared count;
+	// beyond it a list grows with the elements actually read
+	_maxPreAlloc = 1024
 )
+
+func minInt(a, b int) int {
+	if a < b {
+		return a
+	}
+	return b
+}
 
 var (
 	_buildInTypeNameMap = make(map[string]string)
